@@ -54,8 +54,10 @@ fn main() {
             let ctx = truth.ctx();
             truth::passes::evaluate_const_vars::run(ctx)?;
             truth::passes::const_simplify::run(&mut block, ctx)?;
+            // what is left of the source after constant folding (dead ternary branches are gone)
+            let simplified = Exporter::new(Some(truth.ctx())).block(&block);
             let instrs = lower_block(truth, block, &hooks, truth::LanguageKey::Anm)?;
-            Ok((src, instrs))
+            Ok((src, simplified, instrs))
         });
         let events = truth::verif_hooks::trace::take();
         let mut ment = std::collections::BTreeSet::new();
@@ -64,7 +66,19 @@ fn main() {
             "scratch_int": cfg["scratch_int"], "scratch_float": cfg["scratch_float"]});
         let mut row = base;
         match r {
-            Out::Ok((Ok(src), instrs), diag) => {
+            Out::Ok((Ok(src), simplified, instrs), diag) => {
+                // registers the source mentions only in code that const_simplify removed, and that
+                // assign_registers then handed out (alloc events)
+                let mut ment_src = std::collections::BTreeSet::new();
+                mentioned(&src, &json!({}), &mut ment_src);
+                let mut ment_after = std::collections::BTreeSet::new();
+                if let Ok(simp) = &simplified { mentioned(simp, &json!({}), &mut ment_after); }
+                let allocated: std::collections::BTreeSet<String> = row["events"].as_array().map(|evs| evs.iter()
+                    .filter(|e| e["ev"] == "alloc").map(|e| format!("r{}", e["reg"])).collect()).unwrap_or_default();
+                let dead_scratch: Vec<String> = if simplified.is_ok() {
+                    ment_src.iter().filter(|r| !ment_after.contains(*r) && allocated.contains(*r)).cloned().collect()
+                } else { vec![] };
+                row["dead_scratch"] = json!(dead_scratch);
                 let mut off = 0u64;
                 let mut decoded = vec![];
                 let mut err = None;
@@ -82,7 +96,8 @@ fn main() {
                     for r in vh::lang::ids(&cfg["int_regs"]) { all.push((format!("r{}", r), "i")); }
                     for r in vh::lang::ids(&cfg["float_regs"]) { all.push((format!("r{}", r), "f")); }
                     let var_ids: std::collections::BTreeSet<String> = p["vars"].as_array().unwrap().iter().map(|v| v["id"].as_str().unwrap().to_string()).collect();
-                    let watched: Vec<&String> = all.iter().map(|(id, _)| id).filter(|id| ment.contains(*id) || !scratch.contains(*id)).collect();
+                    let watched: Vec<&String> = all.iter().map(|(id, _)| id).filter(|id| ment.contains(*id) || !scratch.contains(*id))
+                        .filter(|id| !dead_scratch.contains(*id)).collect();
                     let fixed: Vec<Value> = all.iter().filter(|(id, _)| !var_ids.contains(id)).map(|(id, ty)| json!({"id": id, "ty": ty})).collect();
                     row["src"] = src; row["instrs"] = json!(decoded); row["endoff"] = json!(off);
                     row["intr"] = Value::Object(lang.intr.clone());
@@ -93,7 +108,7 @@ fn main() {
                     row["raw"] = json!(instrs.iter().map(raw_instr_json).collect::<Vec<_>>());
                 }
             },
-            Out::Ok((Err(e), _), _) => { row["unsupported"] = json!(e); },
+            Out::Ok((Err(e), _, _), _) => { row["unsupported"] = json!(e); },
             Out::Err(d) => { row["rejected"] = json!(first_line(&d)); row["diag"] = json!(d.chars().take(600).collect::<String>()); },
             Out::Panic(pi) => { row["panic"] = pi.json()["panic"].clone(); },
         }
